@@ -115,6 +115,14 @@ def check(run):
     run.assumptions += ["configparser.ExtendedInterpolation is the standard library's; modelled by Atsim.resolveVal and compared on every option value",
                         "a variable that shadows nothing and is referenced nowhere is 'unused'"]
     rng = run.rng
+    # the regenerated `_RawConfigParser.has_option` / `_own_option` / `optionxform` (`C15_code_has_option`: a section's options are its own entries) against the real parser
+    import genlib
+    from props.C14 import gen_file as _gen14, render as _render14, lines_of as _lines14
+    _files = []
+    for _ in range(run.n(30, 300)):
+        _secs = _gen14(rng)[0]
+        _files.append((_render14(_secs), _lines14(_secs), _secs))
+    genlib.validate_raw_parser(run, _files, n=len(_files))
     cases = []
     for _ in range(run.n(150, 3000)):
         kind, secs = gen_model(rng)
